@@ -108,6 +108,46 @@ def exc(value, state):
     return Result("exc", value, state)
 
 
+def is_handle(v):
+    """("h", n): a reference to the list / dict kept under the state key "heap.<n>" -- an object with more than one
+    owner (a variable and an attribute, a caller's local and a callee's parameter, ...)."""
+    return isinstance(v, tuple) and len(v) == 2 and v[0] == "h"
+
+
+def heap_key(h):
+    return f"heap.{h[1]}"
+
+
+def unbox(v, st):
+    return st.get(heap_key(v), TOP) if is_handle(v) else v
+
+
+def unbox_deep(v, st, depth=0):
+    if is_handle(v):
+        v = st.get(heap_key(v), TOP)
+    if isinstance(v, tuple) and depth < 8 and any(isinstance(x, tuple) for x in v):
+        return tuple(unbox_deep(x, st, depth + 1) if isinstance(x, tuple) else x for x in v)
+    return v
+
+
+def without_heap(st):
+    """The state as the rules read it: every slot holds the content of the object it refers to."""
+    if not any(k.startswith("heap.") for k, _ in st.items):
+        return st
+    return State(frozenset((k, unbox_deep(v, st)) for k, v in st.items if not k.startswith("heap.") and k != "ev.heap"), st.log)
+
+
+def _empty_container(e):
+    """The abstract value of an expression that makes a new empty dict / list / set, else None."""
+    if isinstance(e, ast.Dict) and not e.keys:
+        return ("kwdict", ())
+    if isinstance(e, ast.List) and not e.elts:
+        return ("tuple",)
+    if isinstance(e, ast.Call) and isinstance(e.func, ast.Name) and not e.args and not e.keywords:
+        return {"dict": ("kwdict", ()), "list": ("tuple",), "set": ("set", ("empty",))}.get(e.func.id)
+    return None
+
+
 def _is_local(key):
     """Frame-local keys look like '<depth>:<name>'."""
     i = key.find(":")
@@ -218,6 +258,7 @@ class Frame:
         self.instance = None     # the ("inst", n, ClassInfo) value when a method of such an instance runs
         self.caller = None
         self.enclosing = ()   # frames of the lexically enclosing functions that are still executing, innermost first
+        self.cellrefs = {}    # free variable -> state key of the cell it shares with the (returned) defining frame
         if is_method and isinstance(func, FUNC_TYPES) and func.args.args and receiver is not None:
             self.selfname = func.args.args[0].arg
 
@@ -243,10 +284,14 @@ class Frame:
                 own = own | own_names(e.func)
 
     def local(self, name):
+        if name in self.cellrefs:
+            return self.cellrefs[name]
         if self.enclosing and isinstance(self.func, FUNC_TYPES + (ast.Lambda,)) and name not in own_names(self.func):
             for e in self.enclosing:
                 if name in own_names(e.func):
                     return e.prefix + name   # a free variable: the enclosing function's local
+                if name in e.cellrefs:
+                    return e.cellrefs[name]
         return self.prefix + name
 
 
@@ -333,8 +378,32 @@ class Interp:
         self.round_cache = {}
 
     # ------------------------------------------------------------------ expressions
-    def eval(self, e, st, fr):
-        """-> list of Result"""
+    def eval(self, e, st, fr, share=False):
+        """-> list of Result.  With ``share`` (the value is about to get a second owner: an assignment from a name,
+        an argument of an inlined call) a list / dict named by ``e`` is moved to the heap and its handle returned;
+        otherwise handles are replaced by the content they refer to, so that consumers see plain values."""
+        rs = self._eval(e, st, fr)
+        if not getattr(self.domain, "heap", False):
+            return rs
+        if share and isinstance(e, (ast.Name, ast.Attribute)):
+            out = []
+            for r in rs:
+                if r.kind == "val" and isinstance(r.value, tuple) and r.value[:1] in (("tuple",), ("kwdict",), ("set",)):
+                    key = self._key_of(e, fr, r.state, follow=False)
+                    if key is not None and r.state.has(key) and r.state.get(key) == r.value:
+                        n = r.state.get("ev.heap", 0)
+                        h = ("h", n)
+                        out.append(val(h, r.state.set("ev.heap", n + 1).set(heap_key(h), r.value).set(key, h)))
+                        continue
+                out.append(r)
+            return out
+        if share and isinstance(e, ast.Call):
+            return rs
+        if any(r.kind == "val" and is_handle(r.value) for r in rs):
+            return [Result(r.kind, unbox(r.value, r.state), r.state) if r.kind == "val" and is_handle(r.value) else r for r in rs]
+        return rs
+
+    def _eval(self, e, st, fr):
         self.steps += 1
         if self.steps > 2_000_000:
             raise Undecided("abstract interpretation exceeded its step budget")
@@ -733,16 +802,18 @@ class Interp:
                 out.append(val(FALSE if hit else TRUE, s3))
         return out
 
-    def eval_list(self, exprs, st, fr):
-        """Evaluate left to right; Result.value is the list of values."""
+    def eval_list(self, exprs, st, fr, share=()):
+        """Evaluate left to right; Result.value is the list of values.  ``share``: per expression, whether the
+        value gets a second owner (see eval)."""
         acc = [val((), st)]
-        for e in exprs:
+        for i_, e in enumerate(exprs):
+            sh = bool(share) and (share is True or (i_ < len(share) and share[i_]))
             nxt = []
             for r in acc:
                 if r.kind == "exc":
                     nxt.append(r)
                     continue
-                for r2 in self.eval(e, r.state, fr):
+                for r2 in self.eval(e, r.state, fr, share=sh):
                     if r2.kind == "exc":
                         nxt.append(r2)
                     else:
@@ -904,7 +975,13 @@ class Interp:
                     out.append((False, s2))
         return out
 
-    def _key_of(self, e, fr, st=None):
+    def _key_of(self, e, fr, st=None, follow=True):
+        key = self._slot_of(e, fr, st)
+        if follow and key is not None and st is not None and is_handle(st.get(key, None)):
+            return heap_key(st.get(key))   # the slot refers to a shared object: reads and in-place updates go to that object
+        return key
+
+    def _slot_of(self, e, fr, st=None):
         hook = getattr(self.domain, "key_of", None) if st is not None else None
         if hook is not None:
             got = hook(self, e, st, fr)
@@ -1009,6 +1086,13 @@ class Interp:
             return st.set(key, value)
         if isinstance(target, ast.Attribute):
             ch = attr_chain(target)
+            if ch and fr.selfname and ch[0] == fr.selfname and len(ch) >= 3 and getattr(self.domain, "heap", False):
+                hook_on = getattr(self.domain, "store_attr_on", None)
+                bases = self.eval(target.value, st, fr)
+                if hook_on is not None and len(bases) == 1 and bases[0].kind == "val":
+                    r = hook_on(bases[0].value, target.attr, value, bases[0].state, fr)
+                    if r is not None:
+                        return r
             if ch and fr.selfname and ch[0] == fr.selfname:
                 hook = getattr(self.domain, "store_attr", None)
                 key = fr.self_key + "." + ".".join(ch[1:])
@@ -1022,6 +1106,13 @@ class Interp:
                 r = hook(st.get(fr.local(target.value.id)), target.attr, value, st, fr)
                 if r is not None:
                     return r
+            if hook is not None and ch and len(ch) >= 3:
+                # a.b.c = v: the object a.b evaluates to (reading attributes has no effects) gets the attribute
+                bases = self.eval(target.value, st, fr)
+                if len(bases) == 1 and bases[0].kind == "val":
+                    r = hook(bases[0].value, target.attr, value, bases[0].state, fr)
+                    if r is not None:
+                        return r
             return st
         if isinstance(target, (ast.Tuple, ast.List)):
             for i, t in enumerate(target.elts):
@@ -1052,7 +1143,8 @@ class Interp:
             return [("raise", r.value, r.state) if r.kind == "exc" else ("next", None, r.state) for r in self.eval(s.value, st, fr)]
         if isinstance(s, ast.Assign):
             out = []
-            for r in self.eval(s.value, st, fr):
+            shared = isinstance(s.value, (ast.Name, ast.Attribute, ast.Call)) and all(isinstance(t, (ast.Name, ast.Attribute)) for t in s.targets)
+            for r in self.eval(s.value, st, fr, share=shared):
                 if r.kind == "exc":
                     out.append(("raise", r.value, r.state))
                     continue
@@ -1611,7 +1703,9 @@ class Interp:
         for name_, v_ in closure_env:
             if any(name_ in own_names(e.func) for e in fr.enclosing):
                 continue
-            if isinstance(v_, tuple) and len(v_) == 2 and v_[0] == "ref":
+            if isinstance(v_, tuple) and len(v_) == 2 and v_[0] == "ref" and v_[1].startswith("cell."):
+                fr.cellrefs[name_] = v_[1]   # a cell shared with the defining frame and its other closures: reads and writes go straight to it
+            elif isinstance(v_, tuple) and len(v_) == 2 and v_[0] == "ref":
                 env_locals.append((name_, st.get(v_[1], TOP), v_[1]))
             else:
                 env_locals.append((name_, v_, None))
@@ -1640,6 +1734,11 @@ class Interp:
                     v = argvals[p.arg]
                 elif p.arg in defaults and isinstance(defaults[p.arg], ast.Constant):
                     v = self.domain.constant(defaults[p.arg])
+                elif p.arg in defaults and getattr(self.domain, "heap", False) and _empty_container(defaults[p.arg]) is not None:
+                    # a mutable default is one object, made when the function is defined and shared by all its calls
+                    v = ("h", f"default:{getattr(func, 'name', '')}:{p.arg}:{defaults[p.arg].lineno}")
+                    if not s0.has(heap_key(v)):
+                        s0 = s0.set(heap_key(v), _empty_container(defaults[p.arg]))
                 elif p.arg in defaults and getattr(self.domain, "default_value", None) is not None:
                     v = self.domain.default_value(defaults[p.arg], func)
                 else:
@@ -1661,6 +1760,8 @@ class Interp:
                     # closures leaving their defining frame (returned, or inside a returned object) take the
                     # values of their free variables along
                     own = own_names(func)
+                    if getattr(self.domain, "closure_cells", False):
+                        payload, s2 = self._to_cells(func, fr, payload, s2)
 
                     def close_over(v, depth=0):
                         if isinstance(v, tuple) and len(v) == 2 and v[0] == "func" and isinstance(v[1], FUNC_TYPES + (ast.Lambda,)):
@@ -1699,6 +1800,36 @@ class Interp:
             return [Result(r.kind, r.value, State(r.state.items | caller_locals, r.state.log)) for r in results]
         finally:
             self.in_progress.discard(key)
+
+    def _to_cells(self, func, fr, payload, st):
+        """Closures leave their defining frame: the variables they share with it (and with each other) move to
+        cells -- state keys "cell.<n>.<name>" that outlive the frame; every closure of this frame refers to them."""
+        own = own_names(func)
+        nested = [n for s_ in func.body for n in ast.walk(s_) if isinstance(n, FUNC_TYPES + (ast.Lambda,))]
+        captured = sorted({n_ for f_ in nested for n_ in free_names(f_) if n_ in own and st.has(fr.local(n_))})
+
+        def escaping(v, depth=0):
+            if is_func_value(v) and len(v) == 2:
+                return lexical_parent(v[1]) is func
+            return isinstance(v, tuple) and depth < 6 and any(escaping(x, depth + 1) for x in v if isinstance(x, tuple))
+        if not captured or not escaping(payload):
+            return payload, st
+        n = st.get("ev.cells", 0)
+        st = st.set("ev.cells", n + 1)
+
+        def env_of(node):
+            return tuple((n_, ("ref", f"cell.{n}.{n_}")) for n_ in captured if n_ in free_names(node))
+
+        def close(v, depth=0):
+            if is_func_value(v) and len(v) == 2 and lexical_parent(v[1]) is func:
+                env = env_of(v[1])
+                return ("func", v[1], env) if env else v
+            if isinstance(v, tuple) and depth < 6:
+                return tuple(close(x, depth + 1) if isinstance(x, tuple) else x for x in v)
+            return v
+        for n_ in captured:
+            st = st.set(f"cell.{n}.{n_}", close(st.get(fr.local(n_))))
+        return close(payload), st
 
     # ------------------------------------------------------------------ generic inlining of in-repo callees
     def resolve_callee(self, call, st, fr, classes):
@@ -1751,7 +1882,8 @@ class Interp:
             params = params[1:]
         kwonly = [p.arg for p in f.args.kwonlyargs]
         out = []
-        for r in self.eval_list(exprs, st, fr):
+        share = [not isinstance(a, ast.Starred) for a in call.args] + [k.arg is not None for k in call.keywords]
+        for r in self.eval_list(exprs, st, fr, share=share):
             if r.kind == "exc":
                 out.append(r)
                 continue
@@ -1835,6 +1967,7 @@ class Interp:
             self.round_cache = {}
             res = self.inline(func, argvals, st, None, receiver=receiver, name=name)
             if not self.changed:
-                return res
-        # one extra round without change detection to return the stable result
+                break
+        if getattr(self.domain, "heap", False):
+            res = dedupe([Result(r.kind, unbox_deep(r.value, r.state), without_heap(r.state)) for r in res])
         return res
